@@ -264,7 +264,42 @@ def backtrace_shapes():
                   [Harness("an_ignored_candidate_next_to_a_backtrace_is_not_the_source", "payloads and variant symbolic", covers=1,
                            asserts="(#[error(ignore)] E, Backtrace): the derive is accepted and source() is None")],
                   decl2.replace("\n", " "), exercises=["impl/src/error.rs::infer_source_field"], quick=True, tags=["backtrace"])
-    return [extra, Shape("c09_backtrace_pairs", HEAD + decl + "\n\n#[cfg(kani)]\nmod proofs {\n    use super::*;\n" + src + "}\n",
+    # a user's own error type that happens to be called `Backtrace`: for named fields the documented rule looks at the
+    # field's *name* only; the type-based exclusion belongs to the tuple rule
+    decl3 = ("pub mod mine {\n    use core::fmt;\n    #[derive(Debug, Clone, Copy, PartialEq, Eq)]\n    pub struct Backtrace(pub u8);\n"
+             "    impl fmt::Display for Backtrace { fn fmt(&self, f: &mut fmt::Formatter<'_>) -> fmt::Result { f.write_str(\"b\") } }\n"
+             "    impl std::error::Error for Backtrace {}\n}\nuse mine::Backtrace;\n"
+             "#[derive(Debug, derive_more::Error)]\npub struct NamedSrc { #[error(not(backtrace))] pub source: Backtrace, pub other: Er }\n"
+             "#[derive(Debug, derive_more::Error)]\npub struct QualSrc { pub other: Er, #[error(not(backtrace))] pub source: mine::Backtrace }\n"
+             "#[derive(Debug, derive_more::Error)]\npub struct Explicit { #[error(source, not(backtrace))] pub cause: Backtrace, pub source: Er }\n"
+             "#[derive(Debug, derive_more::Error)]\npub enum EV { A { #[error(not(backtrace))] source: Backtrace, x: Er }, B(Er) }\n"
+             "plain_display!(NamedSrc, QualSrc, Explicit, EV);")
+    src3 = """    #[kani::proof]
+    fn a_named_source_field_of_a_type_called_backtrace_is_still_the_source() {
+        let a = NamedSrc { source: Backtrace(kani::any()), other: Er(kani::any()) };
+        %s
+        let b = QualSrc { other: Er(kani::any()), source: Backtrace(kani::any()) };
+        %s
+        let c = Explicit { cause: Backtrace(kani::any()), source: Er(kani::any()) };
+        %s
+        let v = if kani::any() { EV::A { source: Backtrace(kani::any()), x: Er(kani::any()) } } else { EV::B(Er(kani::any())) };
+        let got = v.source();
+        match &v {
+            EV::A { source, .. } => { %s }
+            EV::B(t) => { %s }
+        }
+        kani::cover!(matches!(v, EV::A { .. }), "reach A");
+    }
+""" % (expect_src("a.source()", "addr_of(&a.source)", "named field `source` of a user type called Backtrace"),
+       expect_src("b.source()", "addr_of(&b.source)", "named field `source` of type mine::Backtrace"),
+       expect_src("c.source()", "addr_of(&c.cause)", "explicit #[error(source)] on a field of a type called Backtrace"),
+       expect_src("got", "addr_of(source)", "variant field named source of a type called Backtrace"),
+       expect_src("got", "addr_of(t)", "single-field variant"))
+    extra2 = Shape("c09_backtrace_named_user_type", HEAD + decl3 + "\n\n#[cfg(kani)]\nmod proofs {\n    use super::*;\n" + src3 + "}\n",
+                   [Harness("a_named_source_field_of_a_type_called_backtrace_is_still_the_source", "payloads and variant symbolic", covers=1,
+                            asserts="for named fields the field called `source` is the source whatever its type is called")],
+                   decl3.replace("\n", " "), exercises=["impl/src/error.rs::parse_fields (named)"], quick=True, tags=["backtrace"])
+    return [extra, extra2, Shape("c09_backtrace_pairs", HEAD + decl + "\n\n#[cfg(kani)]\nmod proofs {\n    use super::*;\n" + src + "}\n",
                   [Harness("the_non_backtrace_field_of_a_pair_is_the_source", "payloads and variant symbolic", covers=1,
                            asserts="in a two-field tuple with a Backtrace-typed field the other field is the source, unless marked not(source)")],
                   decl.replace("\n", " "), exercises=["impl/src/error.rs::infer_source_field"], quick=True, tags=["backtrace"])]
